@@ -30,6 +30,7 @@ TAG_SEGV = "cyclic-eliminable-assignments-segfault"
 TAG_FREE = "cyclic-eliminable-assignments-free-symbols"
 TAG_AFFINE = "reduce-affine-with-initial-equations-free-state-vectors"
 TAG_CONTRA = "contradictory-alias-pair-dropped"
+TAG_DER = "eliminated-helper-derivative-dropped"
 
 
 # ---------------------------------------------------------------------------
@@ -468,6 +469,42 @@ def gen_forced_zero_model(rng):
             "names": sorted(val), "nonsquare": kind not in ("der",)}
 
 
+def gen_elim_state_model(rng):
+    """an eliminable differentiated STATE `_e1` defined through a chain (depth 2-3) of eliminable ALGEBRAIC
+    helpers (`_e1 = c1*_e2 + k1; _e2 = c2*_e3 + k2; _e3 = c3*a1 + k3`), der(_e1) used in one or two other
+    equations, every equation order.  Eliminating `_e1` turns the helpers and finally `a1` into
+    differentiated states (get_derivative); the constructed solution carries the derivative values."""
+    depth = rng.randint(2, 3)
+    val = {"time": dy(rng, 0, 3), "u1": dy(rng, nonzero=True)}
+    chain = ["_e%d" % (i + 1) for i in range(depth)] + ["a1"]
+    coef = [rng.choice([F(1), F(-1), F(2), F(-2), F(1, 2)]) for _ in range(depth)]
+    off = [dy(rng) for _ in range(depth)]
+    val["a1"] = dy(rng, nonzero=True)
+    val["der(a1)"] = dy(rng, nonzero=True)
+    for i in range(depth - 1, -1, -1):
+        val[chain[i]] = coef[i] * val[chain[i + 1]] + off[i]
+        val["der(%s)" % chain[i]] = coef[i] * val["der(%s)" % chain[i + 1]]
+    decl = ["input Real u1;"] + ["Real %s;" % n for n in chain] + ["Real a2;"]
+    eqs = []
+    for i in range(depth):
+        rhs = "%s * %s" % (num(coef[i]), chain[i + 1])
+        if off[i] != 0:
+            rhs += " + %s" % num(off[i])
+        eqs.append(rng.choice(["%s = %s" % (chain[i], rhs), "%s = %s" % (rhs, chain[i])]))
+    k = val["der(_e1)"] - (val["u1"] - val["a1"])
+    eqs.append("der(_e1) = u1 - a1 + %s" % num(k))
+    val["a2"] = val["_e1"] + val["a1"]
+    eqs.append("a2 = _e1 + a1")
+    if rng.random() < 0.5:
+        decl.append("Real a3;")
+        val["a3"] = val["der(_e1)"] + 1
+        eqs.append("a3 = der(_e1) + 1.0")
+    rng.shuffle(eqs)
+    text = "model M\n  %s\nequation\n  %s;\nend M;\n" % ("\n  ".join(decl), ";\n  ".join(eqs))
+    return {"text": text, "cls": "M", "val": val, "kinds": {"eliminable_state_chain_%d" % depth: 1},
+            "n_unknowns": len(eqs), "elim_graph": {}, "names": sorted(val)}
+
+
 def gen_alias_options(rng):
     o = {"detect_aliases": True,
          "eliminate_constant_assignments": rng.random() < 0.5,
@@ -628,7 +665,9 @@ def judge_c14(case, res):
                     % (label, v.get("unknown_symbol")))
         bad = [i for i, x in enumerate(v) if fr(x) is None or fr(x) != 0]
         if bad:
-            return ("solution-lost", "the original solution does not satisfy simplified %s #%s (residual %s)"
+            chain = any(k.startswith("eliminable_state_chain") for k in case["meta"].get("kinds", {}))
+            return (TAG_DER if chain and elim_on(case) and not post["ders"] else "solution-lost",
+                    "the original solution does not satisfy simplified %s #%s (residual %s)"
                     % (label, bad[:3], [v[i] for i in bad[:3]]))
     for c, als in post["classes"]:
         for a in als:
@@ -759,12 +798,15 @@ def encode(case, res):
     else:
         p = re.compile(rx)
         el = "(Some %s)" % enc_names([n for n in sorted(ids) if p.match(n)], ids)
-    opts = "(Options %s %s %s %s %s %s %s %s %s %s)" % (
+    dermap = cq_list(["(%s, %s)" % (cq_pos(ids[n]), cq_pos(ids["der(%s)" % n]))
+                      for n in sorted(ids) if "der(%s)" % n in ids])
+    opts = "(Options %s %s %s %s %s %s %s %s %s %s DERMAP)" % (
         cq_bool(o.get("replace_parameter_expressions")), cq_bool(o.get("replace_constant_expressions")),
         cq_bool(o.get("eliminate_constant_assignments")), cq_bool(o.get("replace_parameter_values")),
         cq_bool(o.get("replace_constant_values")), el, cq_bool(o.get("expand_mx")),
         cq_bool(o.get("detect_aliases")), cq_bool(o.get("allow_derivative_aliases", True)),
         cq_bool(o.get("iterative_simplification")))
+    opts = opts.replace("DERMAP", dermap)
     if "simplify_exc" in res:
         ob = "(Obs true false [] [] [] [] [] [] [] [] [] [])"
     else:
@@ -837,6 +879,12 @@ def build_cases(ctx):
         if mdl["nonsquare"]:
             c["meta"]["singular"] = True      # one constraint on a known: skips the generator's squareness test only
         cases.append(c)
+    # eliminable differentiated state defined through eliminable algebraic helpers (get_derivative; modelled)
+    for _ in range(ctx.scaled(16, 120)):
+        mdl = gen_elim_state_model(rng)
+        o = {"eliminable_variable_expression": ELIM_RE, "expand_mx": True,
+             "detect_aliases": rng.random() < 0.4, "eliminate_constant_assignments": rng.random() < 0.3}
+        cases.append(make_case(rng, mdl, o))
     # multi-pass stream: aliases that only appear in pass 2+ (iterative_simplification; in the correspondence)
     for _ in range(ctx.scaled(24, 250)):
         mdl = gen_alias_model(rng, late=True)
